@@ -1,9 +1,9 @@
 SPECIFICATION Spec
 CONSTANTS MaxNum = 3
-  Vals = {"a"}
-  OBJSTM = FALSE
-  SEEKABLE = FALSE
-  MaxOps = 4
+  Vals = {"a", "b"}
+  OBJSTM = TRUE
+  SEEKABLE = TRUE
+  MaxOps = 3
   Threshold = 2
   MaxMembers <- SmallMembers
 INVARIANTS RoundTrip UnwrittenNull OffsetsExact NoOverlap SizeCovers DeferredAfterStream ObjStmConsistent TrailerOK
